@@ -5,7 +5,7 @@
    other, and a predicate listing x lists at least the predicates of y. *)
 From Coq Require Import List ZArith Bool Permutation.
 From MV Require Import Store.AMap Store.SetSpec Store.Generic Store.Simple Store.Indexed Store.MultiIndexed Store.MultiIndexedArray
-  Store.Wrappers Store.GenericProofs Store.SimpleProofs Store.ArrayProofs Store.IndexedProofs Store.MultiProofs Store.WrappersProofs Store.StoreTheorems.
+  Store.Wrappers Store.GenericProofs Store.SimpleProofs Store.ArrayProofs Store.IndexedProofs Store.MultiProofs Store.WrappersProofs Store.ComposeProofs Store.StoreTheorems.
 Import ListNotations.
 Open Scope Z_scope.
 
@@ -186,6 +186,133 @@ Proof.
   intros Bs W. exact (conj (merged_contains_ok Bs W) (conj (merged_query_ok Bs W) (merged_count_ok Bs W))).
 Qed.
 Print Assumptions merged_reads.
+
+(* ---- Composition of the wrappers with stores that refine sets.
+   o_step W st o is one operation of a history on the store given by its
+   operations W (g_step I = o_step (g_ops I)); final step st h is the state
+   after the history h. set_like W Rel D says: W simulates the set machine on
+   the operations in D, with Rel relating store states to sets (every
+   in-memory store whose shards act as sets is set_like: base_sim; a teeing /
+   merged store over set_like components is set_like again: tee_sim,
+   merged_sim, so the wrappers nest). The wrappers' documented domain: Remove
+   only removes from the write store; a Merge brings no atom the read-only part
+   holds (N7, see tee_merge_dup_refuted). *)
+Theorem teeing_store_over_set_like_stores_refines_set :
+  forall (S SB : Type) (Out : store_ops S) (WB : store_ops SB)
+         (RelO : S -> sset -> Prop) (DO : op -> Prop) (RelB : SB -> sset -> Prop) (DB : op -> Prop) (U : atom -> Prop),
+    set_like Out RelO DO -> set_like WB RelB DB ->
+    ((forall a, U a -> DB (Contains a)) /\ (forall q, DB (Query q)) /\ DB Preds /\ DB Count) ->
+    forall (stB : SB) (B : sset) (o : S) (O : sset), RelB stB B -> RelO o O -> NoDup (B ++ O) ->
+    forall h : list op,
+      Forall (fun x => DO x /\ (forall a, In a (op_atoms x) -> U a /\ DO (Contains a)) /\
+                       match x with Remove a => ~ In a B | Merge l => forall y, In y l -> ~ In y B | _ => True end) h ->
+      Forall2 out_covers (run (o_step (tee_ops Out (view WB stB))) o h) (run s_step (B ++ O) h).
+Proof. exact @tee_run. Qed.
+Print Assumptions teeing_store_over_set_like_stores_refines_set.
+
+Theorem merged_store_over_set_like_stores_refines_set :
+  forall (S : Type) (Out : store_ops S) (RelO : S -> sset -> Prop) (DO : op -> Prop) (U : atom -> Prop)
+         (reads : list ro) (Bs : list sset),
+    set_like Out RelO DO ->
+    Forall2 (fun r B => NoDup B /\ (forall a, U a -> r_contains r a = s_mem a B) /\
+                        (forall q, Permutation (r_query r q) (s_query q B)) /\
+                        incl (s_preds B) (r_preds r) /\ Wrappers.r_count r = s_count B) reads Bs ->
+    forall (o : S) (O : sset), RelO o O -> NoDup (concat Bs ++ O) ->
+    forall h : list op,
+      Forall (fun x => DO x /\ (forall a, In a (op_atoms x) -> U a /\ DO (Contains a)) /\
+                       match x with Remove a => ~ In a (concat Bs) | Merge l => forall y, In y l -> ~ In y (concat Bs)
+                                  | _ => True end) h ->
+      Forall2 out_covers (run (o_step (merged_ops Out reads)) o h) (run s_step (concat Bs ++ O) h).
+Proof. exact @merged_run. Qed.
+Print Assumptions merged_store_over_set_like_stores_refines_set.
+(* the hypotheses are met by every in-memory store (any universe U of pairwise
+   compatible atoms), hence by the four kinds *)
+Example set_like_satisfiable :
+  forall hash chash,
+    set_like (g_ops (array_impl hash chash)) (base_rel (array_impl hash chash) a_elems (a_WF hash chash) (fun _ => True))
+             (in_dom (fun _ => True)) /\
+    base_rel (array_impl hash chash) a_elems (a_WF hash chash) (fun _ => True) g_empty [].
+Proof.
+  intros hash chash. split; [|apply base_rel_empty].
+  exact (base_sim (array_impl hash chash) a_elems (a_WF hash chash) (fun _ _ => True) (fun _ => True)
+           (array_shard_ok hash chash) (fun _ _ _ _ => I)).
+Qed.
+
+(* TeeingStore whose base is an in-memory store of any kind IB filled by ANY
+   history hB, and whose output store is a fresh in-memory store of any kind IO:
+   on every history h in the documented domain it answers as the set that hB
+   built, extended by h. kB, kO are the side conditions of the two kinds. *)
+Theorem teeing_store_over_inmemory_stores_refines_set :
+  forall (TB TO : Type) (IB : shard_impl TB) (IO : shard_impl TO)
+         (eB : TB -> list atom) (wB : pred -> TB -> Prop) (kB : atom -> atom -> Prop)
+         (eO : TO -> list atom) (wO : pred -> TO -> Prop) (kO : atom -> atom -> Prop),
+    shard_ok IB eB wB kB -> shard_ok IO eO wO kO ->
+    forall hB h : list op,
+      (forall a b, In a (history_atoms (hB ++ h)) -> In b (history_atoms (hB ++ h)) -> kB a b /\ kO a b) ->
+      Forall (fun x => match x with Remove a => ~ In a (final s_step [] hB)
+                                  | Merge l => forall y, In y l -> ~ In y (final s_step [] hB) | _ => True end) h ->
+      Forall2 out_covers
+        (run (o_step (tee_ops (g_ops IO) (view (g_ops IB) (final (g_step IB) g_empty hB)))) g_empty h)
+        (run s_step (final s_step [] hB) h).
+Proof. exact @tee_inmemory. Qed.
+Print Assumptions teeing_store_over_inmemory_stores_refines_set.
+
+(* NewTeeingStore(base) makes the output store an array store. Over an array
+   base: no condition on the hash functions at all. *)
+Theorem teeing_store_over_array_store_refines_set :
+  forall (hash : atom -> Z) (chash : Z -> Z) (hB h : list op),
+    Forall (fun x => match x with Remove a => ~ In a (final s_step [] hB)
+                                | Merge l => forall y, In y l -> ~ In y (final s_step [] hB) | _ => True end) h ->
+    Forall2 out_covers
+      (run (o_step (tee_ops (g_ops (array_impl hash chash))
+                            (view (g_ops (array_impl hash chash)) (final (g_step (array_impl hash chash)) g_empty hB)))) g_empty h)
+      (run s_step (final s_step [] hB) h).
+Proof. exact tee_over_array. Qed.
+Print Assumptions teeing_store_over_array_store_refines_set.
+(* Over a simple base (the interpreter's tee): no two distinct hash-equal atoms. *)
+Theorem teeing_store_over_simple_store_refines_set :
+  forall (hash : atom -> Z) (chash : Z -> Z) (hB h : list op),
+    (forall a b, In a (history_atoms (hB ++ h)) -> In b (history_atoms (hB ++ h)) -> hash a = hash b -> a = b) ->
+    Forall (fun x => match x with Remove a => ~ In a (final s_step [] hB)
+                                | Merge l => forall y, In y l -> ~ In y (final s_step [] hB) | _ => True end) h ->
+    Forall2 out_covers
+      (run (o_step (tee_ops (g_ops (array_impl hash chash))
+                            (view (g_ops (simple_impl hash)) (final (g_step (simple_impl hash)) g_empty hB)))) g_empty h)
+      (run s_step (final s_step [] hB) h).
+Proof. exact tee_over_simple. Qed.
+Print Assumptions teeing_store_over_simple_store_refines_set.
+Example wrapper_domain_satisfiable :
+  let hB := [Add (0, [1]); Add (1, [])] in
+  let h := [Add (0, [2]); Add (0, [1]); Remove (0, [2]); Contains (0, [1]); Query (0, [None]); Preds; Count;
+            Merge [(0, [3]); (2, [1; 2])]; Remove (0, [3])] in
+  Forall (fun x => match x with Remove a => ~ In a (final s_step [] hB)
+                              | Merge l => forall y, In y l -> ~ In y (final s_step [] hB) | _ => True end) h.
+Proof.
+  intros hB h. unfold h. repeat constructor; vm_compute; intuition congruence.
+Qed.
+
+(* MergedStore over read-only in-memory stores of a kind IB, each filled by its
+   own history (pairwise disjoint contents: the documented domain), and a fresh
+   write store of a kind IW. *)
+Theorem merged_store_over_inmemory_stores_refines_set :
+  forall (TB TW : Type) (IB : shard_impl TB) (IW : shard_impl TW)
+         (eB : TB -> list atom) (wB : pred -> TB -> Prop) (kB : atom -> atom -> Prop)
+         (eW : TW -> list atom) (wW : pred -> TW -> Prop) (kW : atom -> atom -> Prop),
+    shard_ok IB eB wB kB -> shard_ok IW eW wW kW ->
+    forall (hBs : list (list op)) (h : list op),
+      (forall a b, In a (history_atoms (concat hBs ++ h)) -> In b (history_atoms (concat hBs ++ h)) -> kB a b /\ kW a b) ->
+      NoDup (concat (map (final s_step []) hBs)) ->
+      Forall (fun x => match x with Remove a => ~ In a (concat (map (final s_step []) hBs))
+                                  | Merge l => forall y, In y l -> ~ In y (concat (map (final s_step []) hBs))
+                                  | _ => True end) h ->
+      Forall2 out_covers
+        (run (o_step (merged_ops (g_ops IW) (map (fun hB => view (g_ops IB) (final (g_step IB) g_empty hB)) hBs))) g_empty h)
+        (run s_step (concat (map (final s_step []) hBs)) h).
+Proof. exact @merged_inmemory. Qed.
+Print Assumptions merged_store_over_inmemory_stores_refines_set.
+Example merged_components_disjoint_satisfiable :
+  NoDup (concat (map (final s_step []) [[Add (0, [1]); Add (1, [])]; [Add (0, [2]); Add (0, [3]); Remove (0, [3])]])).
+Proof. vm_compute. repeat constructor; simpl; intuition congruence. Qed.
 
 (* F10 before the fix: Add of an atom of the base reported "new" *)
 Theorem tee_add_prefix_refuted :
